@@ -234,6 +234,7 @@ def run_worker(mod, tier, seed, shard, nshards, out_path, budget_s, reach=None):
 
 def _spawn(mod, tier, seed, nshards, workdir, budget_s, timeout_s, extra_env=None):
     procs = []
+    os.environ['VERIF_TIER_ACTIVE'] = tier
     for i in range(nshards):
         out = os.path.join(workdir, 'w%02d.json' % i)
         env = dict(os.environ)
